@@ -28,6 +28,11 @@ func c20Pool() []replLine {
 		{"", true, "empty"}, {"   ", true, "empty"}, {"// comment only", true, "empty"},
 		{Print("1") + " " + Print("2"), true, "print"}, {Var("y", "2") + " " + Print("y * 2"), true, "print"}, {"1; 2;", true, "echo"},
 		{Fun("f", "a", " "+Ret("a + 1")+" ") + " f(1);", true, "echo"}, {If(True(), Print(`"t"`)), true, "print"},
+		// lines that end exactly where the lexer looks ahead
+		{"1.", true, "syntax"}, {Print("1."), true, "syntax"}, {"1; /* open *", true, "lexical"}, {"x.", true, "syntax"}, {Print("2") + " /", true, "syntax"}, {"1 /*", true, "lexical"}, {Print("3.5") + " //", true, "print"}, {"/", true, "syntax"}, {"*", true, "syntax"}, {"1.5.", true, "syntax"},
+		// a runtime error raised 3000 user-function calls deep (whatever a failing line leaves behind must not accumulate)
+		{Fun("dp", "n", " "+If("n == 0", "{ "+Ret("nil.k")+" }")+" "+Ret("dp(n - 1)")+" ") + " dp(3000);", true, "runtime"},
+		{Fun("dq", "n", " "+If("n == 0", "{ "+Ret("1")+" }")+" "+Ret("1 + dq(n - 1)")+" ") + " dq(800);", true, "echo"},
 		// long lines (beyond a 4096-byte buffer, below bufio.Scanner's 64 KiB limit)
 		{Print(`"` + strings.Repeat("লম্বা ", 900) + `"`), true, "long"},
 		{"1" + strings.Repeat(" + 1", 1999) + ";", true, "long"},
@@ -287,7 +292,7 @@ func c20Run(c *Ctx) {
 func init() {
 	register(&CheckDef{
 		ID:   "C20",
-		Rule: "interactive sessions of the plain binary (stdout and stderr on one pipe, split at the `>> ` prompts): every sequence of <=2 (quick) / <=3 (thorough) lines over a 49-line pool (prints, bare expressions of every value kind, built-in calls, lexical errors, syntax errors, runtime errors incl. a failing multi-statement line and a line that overwrites a built-in name and then fails, a declaration and dependent lines, empty / blank / comment-only lines, multi-statement lines), with and without a final newline; seeded random sessions of 3-40 lines; long lines (4-12 kB: a long string, a 2000-term sum, a long comment, 150 stray characters, long failing lines); long sessions of 120-380 lines dominated by failing lines. Checks: exit status 0; exactly one response per line plus the final prompt; every self-contained line's response equals refborno's REPL-mode expectation (echo of bare expression values included) and is byte-identical to the response the same binary gives to that line alone in a fresh session. Non-trivial = distinct session whose responses were all checked.",
+		Rule: "interactive sessions of the plain binary (stdout and stderr on one pipe, split at the `>> ` prompts): every sequence of <=2 (quick) / <=3 (thorough) lines over a 61-line pool (prints, bare expressions of every value kind, built-in calls, lexical errors, syntax errors, runtime errors incl. a failing multi-statement line and a line that overwrites a built-in name and then fails, a declaration and dependent lines, empty / blank / comment-only lines, multi-statement lines), with and without a final newline; seeded random sessions of 3-40 lines; long lines (4-12 kB: a long string, a 2000-term sum, a long comment, 150 stray characters, long failing lines); long sessions of 120-380 lines dominated by failing lines. Checks: exit status 0; exactly one response per line plus the final prompt; every self-contained line's response equals refborno's REPL-mode expectation (echo of bare expression values included) and is byte-identical to the response the same binary gives to that line alone in a fresh session. Non-trivial = distinct session whose responses were all checked.",
 		Assumptions: []string{"the property promises no state carried between lines: lines that depend on earlier lines are only counted", "lines containing the prompt text, ইনপুট/ক্লক lines and lines beyond bufio.Scanner's 64 KiB limit are out of domain"},
 		Run:         c20Run,
 		Judge:       c20Judge,
